@@ -74,10 +74,13 @@ pub struct AckProf {
     pub sei: Option<u32>,
     /// v5.0: a User Property with a value of this many bytes (makes the CONNACK large)
     pub pad: Option<usize>,
+    /// v5.0: the properties in the reverse order (Server Keep Alive first ... Session Expiry Interval last): the
+    /// order of properties in a block carries no meaning
+    pub rev: bool,
 }
 impl AckProf {
     pub fn basic(sp: bool) -> Self {
-        AckProf { sp, ok: true, rm: None, tam: None, mps: None, ska: None, sei: None, pad: None }
+        AckProf { sp, ok: true, rm: None, tam: None, mps: None, ska: None, sei: None, pad: None, rev: false }
     }
     /// session present, but the server limits the session to this connection (Session Expiry Interval 0)
     pub fn present_expiry_0() -> Self {
@@ -104,6 +107,9 @@ impl AckProf {
             if let Some(n) = self.pad {
                 props.push(Prop { id: 0x26, val: PVal::Pair(b"k".to_vec(), vec![b'v'; n]) });
             }
+        }
+        if self.rev {
+            props.reverse();
         }
         let code = if self.ok { 0 } else if ver == Ver::V5 { 0x87 } else { 5 };
         AP::Connack { ver, sp: self.sp && self.ok, code, props }
@@ -923,8 +929,10 @@ impl<P: Pid> Ep<P> {
                         let adopted = post_recv_snap.protocol_version;
                         if level == 4 || level == 5 {
                             rules.label("c17.undetermined-adopts");
-                            if !c.recvs().is_empty() && adopted != level {
-                                rules.viol_sig("c17.adoption", format!("c17.adoption|level{level}"), &pre_m, format!("CONNECT level {level} delivered but get_protocol_version() is {adopted}"));
+                            // (a CONNECT of a supported level fixes the version whether it is then delivered or turned
+                            // down by the parser of that version - it has been answered in that version's format)
+                            if (!c.recvs().is_empty() || !c.sends().is_empty()) && adopted != level {
+                                rules.viol_sig("c17.adoption", format!("c17.adoption|level{level}"), &pre_m, format!("CONNECT level {level} was {} but get_protocol_version() is {adopted}: {}", if c.recvs().is_empty() { "answered" } else { "delivered" }, c.describe()));
                             }
                         } else {
                             rules.label("c17.undetermined-rejects-level");
